@@ -112,7 +112,14 @@ Definition claim_dirs (d : desc) (role : string) (names : list string) (m : list
                        else Err "Protocol cannot be used for both manager and subordinate"
            end) names m.
 
+(* the ports of the top module are named <endpoint>_<protocol>: two (endpoint, protocol) uses must not share that name *)
+Definition port_base_names (d : desc) : list string :=
+  flat_map (fun e => map (fun p => ep_name e +++ "_" +++ p)
+                         ((match ep_mgr e with Some l => l | None => [] end) ++ (match ep_sbr e with Some l => l | None => [] end)))
+           (d_eps d).
+
 Definition compile_endpoints (d : desc) (g : graph) : res (list (string * string)) :=
+  if negb (nodupb str_eqb (port_base_names d)) then Err "ValueError: the ports of two endpoint protocols have the same name" else
   foldM (fun m n =>
            match find_ep d (n_desc n) with
            | None => Err "endpoint descriptor"
